@@ -2012,10 +2012,12 @@ class zip_latest(Stream):
         if not self.missing:
             L = []
             while self.lossless_buffer:
-                self.last[0], self.metadata[0] = self.lossless_buffer.popleft()
+                x0, md0 = self.lossless_buffer.popleft()
+                self.last[0], self.metadata[0] = x0, md0
                 md = [m for ml in self.metadata for m in ml]
                 L.extend(self._emit(tuple(self.last), md))
-                self._release_refs(self.metadata[0])
+                # not self.metadata[0]: a nested emission may have replaced it
+                self._release_refs(md0)
             return L
 
 
